@@ -212,6 +212,6 @@ def case(ctx, rng):
 def run(ctx):
     hooks = Hooks(ctx)
     hooks.install_plan_hook()
-    for _, rng in ctx.cases("pairs", ctx.n(6000, 150000)):
+    for _, rng in ctx.cases("pairs", ctx.budget(48000, 900000)):
         ctx.run_case(case, ctx, rng)
     hooks.uninstall()
